@@ -254,6 +254,16 @@ Theorem C03_kron_all_entries : forall sizes, Forall (fun s => 0 < s) sizes -> fo
   exists ds, digits_ok sizes ds /\ compose sizes ds = x.
 Proof. exact compose_surjective. Qed.
 
+(* EXACTNESS of the factor-index decomposition for ALL in-range indices, of any magnitude (the arithmetic is over Z: floor
+   division and remainder, no rounding): the digits the code extracts from x are valid factor indices and recompose to x.
+   A floating-point quotient violates exactly this as soon as an index exceeds 2^24 (float32) / 2^53 (float64). *)
+Theorem C03_kron_digits_exact : forall sizes, Forall (fun s => 0 < s) sizes -> forall x, 0 <= x < zprod sizes ->
+  digits_ok sizes (kron_digits sizes (zprod sizes) x) /\ compose sizes (kron_digits sizes (zprod sizes) x) = x.
+Proof.
+  intros sizes H x Hx. destruct (compose_surjective sizes H x Hx) as [ds [Hok Hc]].
+  rewrite <- Hc. rewrite (kron_digits_compose sizes ds Hok). split; [assumption|reflexivity].
+Qed.
+
 (* _kron_diag (recursive unsqueeze / transpose / reshape): position compose(ds) of the Kronecker diagonal is the
    product of the factor diagonals at the digits — any number of factors *)
 Theorem C03_kron_diagonal : forall diags ds,
